@@ -322,6 +322,7 @@ pub fn check(ctx: &mut Ctx) -> i32 {
             acc.count("regress_passed", 1);
         }
     }
+    ctx.max_shrink_iters = 300;
     let n = ctx.by(75, 1500);
     if let Some(f) = explore(ctx, &acc, "l3-pipelines", "pipe", &strategy, n, ctx.workers, |c: &PipeCase| run_case(c, prop)) {
         report_violation(ctx, "pipe", &serde_json::to_value(&f.case).unwrap(), &f.fail);
